@@ -7,7 +7,7 @@ Open Scope Z_scope.
 
 Definition core_eq (s s' : state) : Prop :=
   batches s' = batches s /\ updates s' = updates s /\ groups s' = groups s /\ ancestors s' = ancestors s /\
-  marks s' = marks s /\ jobs s' = jobs s /\ parents s' = parents s /\ staging s' = staging s.
+  marks s' = marks s /\ jobs s' = jobs s /\ parents s' = parents s /\ staging s' = staging s /\ next_batch s' = next_batch s.
 
 Lemma core_eq_refl s : core_eq s s.
 Proof. repeat split. Qed.
@@ -83,5 +83,5 @@ Qed.
 Lemma update_job_core s o n :
   let s' := update_job s o n in
   batches s' = batches s /\ updates s' = updates s /\ groups s' = groups s /\ ancestors s' = ancestors s /\
-  marks s' = marks s /\ jobs s' = replace_job n (jobs s) /\ parents s' = parents s /\ staging s' = staging s.
+  marks s' = marks s /\ jobs s' = replace_job n (jobs s) /\ parents s' = parents s /\ staging s' = staging s /\ next_batch s' = next_batch s.
 Proof. cbv zeta. autorewrite with frame. repeat split; reflexivity. Qed.
